@@ -83,11 +83,11 @@ def valtypeOf (e : Enc) : VT :=
   | .numeric =>
     if e.scale = 0 ∧ e.ref ≥ 0 then
       let rb : Int := if e.ref ≠ 0 then (valueNbits e.ref.toNat : Int) else 0
-      if e.nbits + rb ≤ 32 then .int32
+      if e.nbits + rb ≤ 31 then .int32
       else if e.nbits + rb ≤ 64 then .int64
       else .flt64
     else .flt64
-  | .codetable | .flagtable => if e.nbits ≤ 32 then .int32 else .int64
+  | .codetable | .flagtable => if e.nbits ≤ 31 then .int32 else .int64
   | .chngRef => .int32
   | _ => .undefined
 
